@@ -75,6 +75,12 @@ def base_dumps():
     out['v2-bare'] = v2d([], 0, plain[:2])
     out['v2-map-pad'] = v2d([(1, 10, 'procA'), (2, 20, 'procB')], 64, plain)
     out['v2-syscalls'] = v2d([(1, 10, 'procA'), (2, 20, 'procB')], 0, syscall_records())
+    # traces whose process column a LATER record changes (exec renames pid 10; a new-thread record declares tid 3)
+    ren = [R('BSC_getpid', 1, tid=1, ts=30), R('BSC_getpid', 2, (0, 10, 0, 0), tid=1, ts=31), R('BSC_getpid', 1, tid=3, ts=32),
+           R('BSC_getpid', 2, (0, 10, 0, 0), tid=3, ts=33), R('TRACE_DATA_EXEC', 0, (10, 0, 0, 0), tid=1, ts=34),
+           R('TRACE_STRING_EXEC', 0, tid=1, ts=35, data=b'renamed'.ljust(32, b'\0')), R('TRACE_DATA_NEWTHREAD', 0, (3, 20, 0, 0), tid=2, ts=36),
+           R('BSC_getpid', 1, tid=3, ts=37), R('BSC_getpid', 2, (0, 20, 0, 0), tid=3, ts=38)]
+    out['v2-rename'] = v2d([(1, 10, 'procA'), (2, 20, 'procB')], 0, ren)
 
     def v3d(**kw):
         blob, parts = B.v3_sections(**kw)
@@ -226,7 +232,7 @@ def judge_limit(name, consumer, c):
 class C06(Check):
     pid = 'C06'
     level = 'fault_enumeration'
-    rule = ('crash points: every truncation offset 0..len of each base dump (3 version-2, 6 version-3; thorough adds nothing '
+    rule = ('crash points: every truncation offset 0..len of each base dump (4 version-2, 6 version-3; thorough adds nothing '
             'to the offsets - they are already all enumerated - but runs every consumer on every dump) x consumers '
             '{KdBufParser.parse, kevents, traces, formatted_kevents, formatted_traces} through a CountingReader (budget '
             '16*len+4096 read calls, 20 s watchdog); plus every count limit c in 0..N+1 via islice on every complete dump. '
@@ -239,7 +245,7 @@ class C06(Check):
 
     def consumers(self, name):
         if self.tier == 'quick':
-            if 'syscalls' in name:
+            if 'syscalls' in name or 'rename' in name:
                 return CONSUMERS
             return ['parse', 'kevents', 'formatted_kevents']
         return CONSUMERS
